@@ -117,6 +117,40 @@ def rule_hash(repo):
                 plus_one = other[1].name == "one" and "fp::Fr" in other[1].i
     R.check(rem_ok and news and plus_one, "C13:hash:shape", "from_hash is not Fr::new(remainder).map(|f| f + one): remainder=%s new=%s plus_one=%s" % (rem_ok, bool(news), plus_one),
             b.file_line(), b.rec["path"], sample={"remainder_used": rem_ok, "plus_one_closure": plus_one})
+    # every alternative that can be Some is (value mod (r−1)) + 1: the remainder itself, or a raw value on the true edge of `value < r−1`
+    R.instance()
+    bad = []
+    n_alts = 0
+    fr_new = repo.fp_types()["crate::fields::fp::Fr"]["new"].rec["path"]
+    for a in alts(rv):
+        if a[0] == "agg" and a[2] == "None":
+            continue
+        if a[0] == "call" and a[1].name in ("from_residual",):
+            continue
+        n_alts += 1
+        ok_alt = False
+        if a[0] == "call" and a[1].name == "map" and strip(a[2][0])[0] == "call" and strip(a[2][0])[1].d == fr_new:
+            v = strip(strip(a[2][0])[2][0])
+            if v[0] == "field" and v[2] == 1 and strip(v[1])[0] == "call" and strip(v[1])[1].name == "divrem":
+                ok_alt = True
+            else:
+                # guarded raw value
+                site = a[3]
+                for bi in sorted(b.reachable()):
+                    term = b.blocks[bi]["term"]
+                    if term["k"] != "switch":
+                        continue
+                    d = tb.operand(term["discr"], bi, len(b.blocks[bi]["stmts"]))
+                    if d[0] == "call" and d[1].name == "lt" and len(d[2]) == 2 and strip(d[2][0]) == v:
+                        dv2 = strip(d[2][1])
+                        is_div = dv2[0] == "call" and dv2[1].name == "from" and strip(dv2[2][0])[0] == "call" and strip(dv2[2][0])[1].name == "neg"
+                        tt = term["otherwise"] if any(int(x) == 0 for x, _ in term["arms"]) else None
+                        if is_div and tt is not None and b.pred()[tt] == [bi] and b.dominates(tt, site):
+                            ok_alt = True
+        if not ok_alt:
+            bad.append(show(a, maxdepth=4)[:160])
+    R.check(not bad and n_alts >= 1, "C13:hash:every-result-is-remainder-plus-one", "a result of from_hash is not (remainder by r−1)+1 nor a value proven < r−1: %s" % bad[:2], b.file_line(), b.rec["path"],
+            sample={"some_alternatives": n_alts, "all_remainder_plus_one": not bad})
     # source of the dividend: the padded 64-byte buffer interpreted as U512
     R.instance()
     src = strip(divs[0][2][0]) if divs else ("unknown",)
